@@ -189,6 +189,7 @@ def step (st : St) (toks0 : List String) : St × String :=
       (st, s!"img {showOptHex img.snap} {showOptHex img.log} {showOptHex img.tmp}")
     | _, _ => (st, "bad-op")
   | ["sleep", _] => (st, "ok")
+  | ["stress", _, _] => (st, "ok")
   | ["stats"] => (st, "stats")
   | _ => (st, "bad-op")
 
